@@ -814,7 +814,8 @@ class Bytecode:
         the disassembled code object.
         """
         co = get_code_object(x)
-        cell_names = co.co_cellvars + co.co_freevars
+        # Code objects before 2.1 have no cell or free variables.
+        cell_names = getattr(co, "co_cellvars", ()) + getattr(co, "co_freevars", ())
         line_starts = dict(self.opc.findlinestarts(co))
         if first_line is not None:
             line_offset = first_line - co.co_firstlineno
